@@ -1,9 +1,169 @@
-import VaxisModel.Model.InputLoop
-import VaxisModel.Spec.InputEvents
+import VaxisModel.Lemmas.Input
+import VaxisModel.Lemmas.InputLoop
 
+/-!
+# C03 — every terminal report becomes the right event; the input loop survives any input
+
+Theorems over `Model/Input.lean` (transcription of `handleSequence`, `parseMouseEvent`, the
+collection loop of `New`) and `Model/InputLoop.lean` (LTS of the input goroutine, the event queue
+and the reply channels).  The facts read from the source on every run are in `Gen/Caps.lean`.
+-/
 namespace VaxisModel.Props.C03
-open VaxisModel.Model.Input
+open VaxisModel.Model.Input VaxisModel.Model.InputLoop
+open VaxisModel.Lemmas.Input VaxisModel.Lemmas.InputLoop
+open VaxisModel.Spec.InputEvents (mouseEvent UEvent)
 
-theorem placeholder : (1 : Nat) = 1 := rfl
+/-! ## Tie to the source: the constants and guards the theorems rely on -/
+
+/-- The bit masks of mouse.go are the SGR-1006 ones. -/
+theorem mouse_constants :
+    Gen.Caps.buttonBits = 195 ∧ Gen.Caps.motion = 32 ∧ Gen.Caps.mouseModShift = 4 ∧
+    Gen.Caps.mouseModAlt = 8 ∧ Gen.Caps.mouseModCtrl = 16 := by decide
+
+/-- The first guard of `parseMouseEvent` is a disjunction (F09 repaired). -/
+theorem mouse_guard_is_or : Gen.Caps.mouseGuardIsOr = true := by decide
+
+/-- The four capacity-1 reply sends are non-blocking and the clipboard hand-off has a time-out
+(F10, F11 repaired); only the unbuffered `chCursorPos` send is bare. -/
+theorem send_kinds : Kinds.ofGen =
+    { cursorPos := .blocking, sizeDone := .nonblocking, color := .nonblocking, fg := .nonblocking,
+      bg := .nonblocking, clipboard := .timeout } := by decide
+
+theorem send_kinds_safe : Kinds.safe Kinds.ofGen := by
+  rw [send_kinds]; simp [Kinds.safe]
+
+/-! ## mouse_exact -/
+
+/-- The model's `Mouse` for a spec-level mouse event. -/
+def mouseOfSpec : UEvent → Option Mouse
+  | .mouse button col row et mods => some { button := button, row := row, col := col, eventType := et, mods := mods }
+  | _ => none
+
+/-- `CSI < b ; x ; y M/m` decodes exactly as the SGR protocol defines: button from bits 0–1 and
+6–7, motion bit 5, shift/alt/ctrl bits 2/3/4, `col = x − 1`, `row = y − 1`, press/release by the
+final byte — for every button value and all coordinates a Go `int` can hold. -/
+theorem mouse_exact (b x y : Nat) (rel : Bool) (hx : x < 2 ^ 63) (hy : y < 2 ^ 63) :
+    parseMouse [ch '<'] [[(b : Int)], [(x : Int)], [(y : Int)]] (if rel then ch 'm' else ch 'M')
+      = .ok (mouseOfSpec (mouseEvent b x y rel)) := by
+  have hg : mouseGuard [60] = .ok false := mouseGuard_sgr
+  obtain ⟨h1, h2, h3, h4, h5⟩ := mouse_constants
+  cases rel <;>
+  simp [parseMouse, hg, idx2, idx, bind, Except.bind, pure, Except.pure, h1, h2, h3, h4, h5, mouseOfSpec, mouseEvent,
+    andMask_buttons, wrap64_pred, hx, hy, mods_sum, andMask_motion, ch, evPress, evMotion, evRelease,
+    VaxisModel.Spec.InputEvents.etMotion, VaxisModel.Spec.InputEvents.etPress, VaxisModel.Spec.InputEvents.etRelease] <;>
+  (rcases Nat.mod_two_eq_zero_or_one (b / 32) with h | h <;> simp [h])
+
+/-- Every other shape (no `<` marker, more than one intermediate, not exactly three parameters)
+is rejected without a panic. -/
+theorem mouse_rejects (interm : List Nat) (params : List (List Int)) (final : Nat)
+    (h : interm ≠ [ch '<'] ∨ params.length ≠ 3) : parseMouse interm params final = .ok none := by
+  have hor := mouse_guard_is_or
+  unfold parseMouse mouseGuard mouseGuardWith
+  rcases interm with _ | ⟨i0, _ | ⟨i1, irest⟩⟩
+  · simp [hor, bind, Except.bind, pure, Except.pure]
+  · by_cases hi : i0 = ch '<'
+    · subst hi
+      have hl : params.length ≠ 3 := by
+        rcases h with h | h
+        · exact absurd rfl h
+        · exact h
+      simp [hor, idx, bind, Except.bind, pure, Except.pure, hl]
+    · simp [hor, idx, bind, Except.bind, pure, Except.pure, hi]
+  · simp [hor, bind, Except.bind, pure, Except.pure]
+
+/-- Non-vacuity: a left-button press with Ctrl at column 10, row 5. -/
+example : parseMouse [ch '<'] [[16], [10], [5]] (ch 'M')
+    = .ok (some { button := 0, row := 4, col := 9, eventType := evPress, mods := modCtrl }) := by rfl
+
+/-! ## handle_total -/
+
+/-- `handleSequence` never panics on a sequence the parser can deliver (every CSI parameter has
+at least one sub-parameter), in any state, for any base64 decoder. -/
+theorem handle_total (b64 : List Nat → Option (List Nat)) (st : VState) (s : Seq) (h : WfSeq s) :
+    ∃ r, handle b64 st s = .ok r :=
+  (ok_iff _).mpr (handle_ok b64 st s h)
+
+/-- The hypothesis is needed: an empty parameter list (which the parser never builds) panics. -/
+example : handle (fun _ => none) {} (.csi [] [[]] (ch 't')) = .ok ({}, []) := by rfl
+example : (match handle (fun _ => none) {} (.csi [] [[8], [], [1]] (ch 't')) with | .error _ => true | .ok _ => false) = true := by decide
+
+/-! ## never_wedges -/
+
+/-- Full statement: from every reachable state internal moves alone (the goroutine's own steps,
+the clipboard time-out, the application reading events) bring the input goroutine back to its
+`select`.  False of the current code: F12 (Witness/F12.lean). -/
+def never_wedges_full (p : Params) (s0 : Sys) : Prop :=
+  ∀ s, Reachable p s0 s → ∃ ls s', (∀ l ∈ ls, l.internal = true) ∧ run p s ls = some s' ∧ s'.pend = []
+
+/-- Proved part: for every queue capacity ≥ 1, every base64 decoder, with the send kinds of the
+current source, from every state reachable from a state with a legal queue, the input goroutine
+gets back to its `select` by internal moves alone — no further terminal input, no requester, no
+matter which replies were unsolicited, repeated or truncated — provided a pending cursor-position
+hand-off still has its requester (the excluded region is exactly F12). -/
+theorem never_wedges_partial (qcap : Nat) (hq : 0 < qcap) (b64 : List Nat → Option (List Nat)) (s0 s : Sys)
+    (h0 : s0.queue.length ≤ qcap)
+    (hr : Reachable { qcap := qcap, kinds := Kinds.ofGen, b64 := b64 } s0 s)
+    (hc : CursorOK s.pend s.cursorWaiting) :
+    ∃ ls s', (∀ l ∈ ls, l.internal = true) ∧
+      run { qcap := qcap, kinds := Kinds.ofGen, b64 := b64 } s ls = some s' ∧ s'.pend = [] :=
+  settle { qcap := qcap, kinds := Kinds.ofGen, b64 := b64 } hq send_kinds_safe s.pend s rfl
+    (reach_queue_le _ s0 s h0 hr) hc
+
+/-- Non-vacuity: after two unsolicited size reports with the capability known (the F10 input),
+the state satisfies the hypotheses and the goroutine is mid-sequence. -/
+example :
+    (match run { qcap := 1, kinds := Kinds.ofGen, b64 := fun _ => none }
+        { vs := { caps := { reportSizeChars := true } } }
+        [.input (.csi [] [[8], [24], [80]] (ch 't')), .step, .input (.csi [] [[8], [24], [80]] (ch 't'))] with
+     | some s => s.pend == [.sendSizeDone] && s.sizeDone == 1
+     | none => false) = true := by decide
+
+/-! ## Coverage of `handleSequence` (regenerated skeleton) -/
+
+/-- The arms of `handleSequence` are exactly those the model transcribes: adding, removing or
+relabelling a case changes `Gen.Caps.hs_switches` and this theorem stops checking. -/
+theorem switch_coverage : Gen.Caps.hs_switches = [
+    ("type", ["ansi.Print", "ansi.C0", "ansi.ESC", "ansi.SS3", "ansi.CSI", "ansi.DCS", "ansi.APC", "ansi.OSC"]),
+    ("seq.Final", ["'c'", "'I'", "'O'", "'R'", "'S'", "'n'", "'y'", "'u'", "'~'", "'M'", "'m'", "'t'"]),
+    ("ps[0]", ["4"]),
+    ("seq.Parameters[0][0]", ["2"]),
+    ("seq.Parameters[0][0]", ["colorThemeResp"]),
+    ("seq.Parameters[0][0]", ["2026", "2027", "2031"]),
+    ("seq.Parameters[1][0]", ["1", "2"]),
+    ("seq.Parameters[1][0]", ["1", "2"]),
+    ("seq.Parameters[1][0]", ["1", "2"]),
+    ("seq.Parameters[0][0]", ["200", "201"]),
+    ("typ", ["4", "8", "48"]),
+    ("len(seq.Parameters)", ["5"]),
+    ("seq.Final", ["'r'", "'|'"]),
+    ("seq.Intermediate[0]", ["'+'", "'$'"]),
+    ("vals[0]", ["hexEncode(\"Smulx\")", "hexEncode(\"RGB\")"]),
+    ("seq.Intermediate[0]", ["'!'", "'>'"])] := by decide +kernel
+
+theorem literal_coverage : Gen.Caps.hs_literals = [
+    ("strings.Split", "="), ("hexEncode", "Smulx"), ("hexEncode", "RGB"), ("strings.HasSuffix", " q"),
+    ("hexEncode", "~VTE"), ("strings.HasPrefix", "G"), ("strings.HasPrefix", "4"), ("strings.HasPrefix", "10"),
+    ("strings.HasPrefix", "11"), ("strings.HasPrefix", "52"), ("strings.Split", ";"), ("strings.HasPrefix", "176"),
+    ("strings.Split", ";")] ∧ Gen.Caps.colorThemeResp = 997 := by decide +kernel
+
+/-- Every index expression of `handleSequence` / `parseMouseEvent` is one the model checks. -/
+theorem index_coverage :
+    Gen.Caps.hs_indexExprs.eraseDups = ["seq.Intermediate[0]", "ps[0]", "seq.Parameters[0][0]", "seq.Parameters[1][0]",
+      "seq.Parameters[2][0]", "seq.Parameters[3][0]", "seq.Parameters[4][0]", "seq.Parameters[0]", "vals[0]", "seq.Data[0]",
+      "vals[2]", "vals[1]"] ∧
+    Gen.Caps.pm_indexExprs.eraseDups = ["seq.Intermediate[0]", "seq.Parameters[0][0]", "seq.Parameters[1][0]",
+      "seq.Parameters[2][0]"] ∧ Gen.Caps.hs_indexExprs.length = 28 ∧ Gen.Caps.pm_indexExprs.length = 8 := by decide +kernel
+
+/-- The capability record and the collection loop of `New` are the ones the model transcribes. -/
+theorem caps_coverage :
+    Gen.Caps.capFields = Caps.fieldNames ∧
+    (Gen.Caps.collect.filter (fun x => x.1 != "appID" && x.1 != "terminalID")).map (fun x => (x.1, x.2.1)) = collectTable ∧
+    (Gen.Caps.collect.filter (fun x => x.1 == "appID" || x.1 == "terminalID")).map (fun x => (x.1, x.2.1))
+      = [("appID", ["osc176"]), ("terminalID", [])] := by decide +kernel
+
+/-- The reply channels have the capacities the LTS assumes (0,1,1,1,1,0). -/
+theorem chan_capacities :
+    (["chCursorPos", "chSizeDone", "chColor", "chFg", "chBg", "chClipboard"].map fun c => (Gen.Caps.chanCaps.lookup c))
+      = [some "0", some "1", some "1", some "1", some "1", some "0"] := by decide +kernel
 
 end VaxisModel.Props.C03
